@@ -231,9 +231,17 @@ class Runner:
         first = ch.choose("start", self.n, free=True)
         self.running = first
         self.go[first].release()
-        if not self.done_evt.acquire(timeout=HANG_TIMEOUT):
-            self.broken = True
-            raise Hang(f"deadlock or hang: finished={self.st.finished} steps={self.st.steps}")
+        # a hang is "no scheduling step anywhere for HANG_TIMEOUT seconds", not "the execution took
+        # longer than that": a loaded machine must not turn a slow execution into an alarm
+        last, quiet = -1, 0.0
+        while not self.done_evt.acquire(timeout=1.0):
+            if self.st.total_steps != last:
+                last, quiet = self.st.total_steps, 0.0
+                continue
+            quiet += 1.0
+            if quiet >= HANG_TIMEOUT:
+                self.broken = True
+                raise Hang(f"deadlock or hang: finished={self.st.finished} steps={self.st.steps}")
         if self.st.error:
             self.broken = True
             raise HarnessError(self.st.error)
